@@ -19,7 +19,7 @@
 (* the store can be written (FALSE while another connection holds the      *)
 (* write lock), logged = everything ever passed to log().                  *)
 (***************************************************************************)
-EXTENDS Naturals, Sequences, FiniteSets, TLC, Json
+EXTENDS Naturals, Sequences, FiniteSets
 
 CONSTANTS NLoggers,      \* loggers are 1..NLoggers
           Traces,        \* trace ids (small naturals)
@@ -30,7 +30,8 @@ VARIABLES buf, store, avail, logged, hist
 vars == <<buf, store, avail, logged, hist>>
 
 Loggers == 1..NLoggers
-RangeOf(s) == {s[j] : j \in 1..Len(s)}
+\* @type: Seq(Int) => Set(Int);
+RangeOf(s) == {s[j] : j \in DOMAIN s}
 
 \* ---- effects, shared with the trace specification --------------------------------------
 LogEff(b, t) == IF t \in MainTraces THEN b ELSE Append(b, t)
@@ -70,6 +71,8 @@ NoLoss == \A t \in logged \ MainTraces : t \in store \/ \E l \in Loggers : t \in
 MainNeverKept == \A t \in MainTraces : t \notin store /\ \A l \in Loggers : t \notin RangeOf(buf[l])
 \* the store holds nothing that was not logged
 OnlyLogged == store \subseteq logged
+\* what is buffered was logged (needed to make the conjunction inductive: found by Apalache, see MC_MTLoggerApa)
+BufferedWasLogged == \A l \in Loggers : RangeOf(buf[l]) \subseteq logged
 \* a flush either empties the buffer into the store or changes nothing
 FlushAllOrNothing ==
   [][\A l \in Loggers :
